@@ -139,9 +139,18 @@ def assembler_transparency(ctx):
             loop = n
     if loop is None:
         raise AnalysisError('anchor vanished: assembly loop')
-    from ..fmt import _ev, _Unknown
+    from ..fmt import _ev, _Unknown, dispatch_subject
+    subj = dispatch_subject(loop.body)
+    # names of the running state, identified structurally (see C09)
+    from .. import pat
+    n_, b_ = pat.first('_OFF += 1 + len(_B)', loop)
+    state_names = {'cur_offset', 'cur_routine', 'code'}
+    if b_:
+        state_names.add(unparse(b_['_OFF']))
+    for x, m in pat.find_all('_CODE += _OPC + _B', loop):
+        state_names.add(unparse(m['_CODE']))
     for op in ('_dbg_info_start', '_dbg_info_end', '_empty_block'):
-        env = {'op': op}
+        env = {'op': op, '__subject__': subj}
         executed = []
         continued = False
 
@@ -167,17 +176,19 @@ def assembler_transparency(ctx):
         bad = []
         for st in executed:
             if isinstance(st, ast.Assign) and \
-                    unparse(st).startswith('op, *args'):
+                    isinstance(st.targets[0], ast.Tuple) and \
+                    unparse(st.value).endswith('.final'):
                 continue
             for kind, root, path, line, text in effects.writes(
                     ast.Module(body=[st], type_ignores=[])):
-                if root in ('code', 'labels', 'patch_positions'):
+                if root in state_names or root in ('labels',
+                                                   'patch_positions'):
                     bad.append(text)
             for n in ast.walk(st):
                 if isinstance(n, (ast.Assign, ast.AugAssign)):
                     tg = n.targets[0] if isinstance(n, ast.Assign) \
                         else n.target
-                    if dotted(tg) in ('cur_offset', 'cur_routine', 'code'):
+                    if dotted(tg) in state_names:
                         bad.append(dotted(tg))
         ctx.instance(rule, construct, sample={'continues': continued,
                                               'statements':
@@ -215,8 +226,9 @@ def assembler_transparency(ctx):
                         x.line)
     # listing skips pseudo ops
     s = repo.func('qbee.qvm_codegen', 'QvmCode.__str__')
-    txt = unparse(s.node)
-    ok = "op.startswith('_dbg_')" in txt and "op == '_empty_block'" in txt
+    from .. import pat as _pat
+    ok = _pat.has("__.startswith('_dbg_')", s.node) and \
+        _pat.has("__ == '_empty_block'", s.node)
     ctx.instance(rule, f'{s.file}:QvmCode.__str__:pseudo')
     if not ok:
         ctx.finding(rule, f'{s.file}:QvmCode.__str__:pseudo',
@@ -245,7 +257,37 @@ def optimizer_window(ctx, pid='C08'):
                 isinstance(s.targets[0], ast.Name):
             ms = [(dotted(e) or '').split('.')[-1] for e in s.value.elts]
             local_lists[s.targets[0].id] = ms
-    slot_of = {'i': 'cur', 'i - 1': 'prev1', 'i - 2': 'prev2'}
+    # slot variables: X = self._instrs[<i> - k]
+    from ..astutil import local_defs
+    slot_names = {}      # local name -> canonical slot
+    ivar = None
+    for name, ds in local_defs(f.node).items():
+        for kind, v in ds:
+            if kind == 'assign' and isinstance(v, ast.Subscript) and \
+                    dotted(v.value) == 'self._instrs':
+                sl = v.slice
+                if isinstance(sl, ast.Name):
+                    ivar = sl.id
+                    slot_names[name] = 'cur'
+                elif isinstance(sl, ast.BinOp) and \
+                        isinstance(sl.op, ast.Sub) and \
+                        isinstance(sl.left, ast.Name) and \
+                        const(sl.right) in (1, 2):
+                    ivar = sl.left.id
+                    slot_names[name] = f'prev{const(sl.right)}'
+    if ivar is None or set(slot_names.values()) != {'cur', 'prev1',
+                                                    'prev2'}:
+        raise AnalysisError('anchor vanished: instruction window '
+                            '(cur/prev1/prev2) in optimize')
+
+    def canon_idx(e):
+        if isinstance(e, ast.Name) and e.id == ivar:
+            return 'i'
+        if isinstance(e, ast.BinOp) and isinstance(e.op, ast.Sub) and \
+                isinstance(e.left, ast.Name) and e.left.id == ivar and \
+                const(e.right) in (1, 2):
+            return f'i - {const(e.right)}'
+        return unparse(e)
 
     def constrained_slots(conds):
         out = set()
@@ -259,9 +301,9 @@ def optimizer_window(ctx, pid='C08'):
                     members = []
                     for e in names:
                         d = dotted(e) or ''
-                        if d.endswith('.op') and d.split('.')[0] in (
-                                'cur', 'prev1', 'prev2'):
-                            slots.append(d.split('.')[0])
+                        if d.endswith('.op') and \
+                                d.split('.')[0] in slot_names:
+                            slots.append(slot_names[d.split('.')[0]])
                         elif d.startswith('Op.'):
                             members.append(d.split('.')[1])
                         elif isinstance(e, (ast.List, ast.Tuple)):
@@ -277,7 +319,7 @@ def optimizer_window(ctx, pid='C08'):
                         isinstance(c.op, ast.Not) and \
                         "op.name.startswith('_')" in unparse(c.operand):
                     d = unparse(c.operand).split('.')[0]
-                    out.add(d)
+                    out.add(slot_names.get(d, d))
         return out
     n_sites = 0
     # group mutation statements by enclosing block to track shifts
@@ -307,10 +349,10 @@ def optimizer_window(ctx, pid='C08'):
                      if t.kind == 'test']
             ok_slots = constrained_slots(conds)
             if isinstance(st, ast.Delete):
-                idx = unparse(st.targets[0].slice)
+                idx = canon_idx(st.targets[0].slice)
                 kind = 'del'
             else:
-                idx = unparse(st.targets[0].slice)
+                idx = canon_idx(st.targets[0].slice)
                 kind = 'set'
             slot = window.get(idx)
             construct = (f'{f.file}:QvmCode.optimize:{kind} '
@@ -343,12 +385,13 @@ def optimizer_window(ctx, pid='C08'):
 
 
 def _guard_text(conds):
+    """The Op members tested on the path (stable under local renames)."""
+    import re
+    ms = []
     for t, lab in conds:
         if lab == 'true':
-            s = unparse(t.ast.test)
-            if 'Op.' in s or 'jump_instrs' in s:
-                return s[:40]
-    return '?'
+            ms += re.findall(r'Op\.([A-Z_]+)', unparse(t.ast.test))
+    return ','.join(ms[:4]) or '?'
 
 
 def acceptance(ctx):
